@@ -4,7 +4,7 @@
 From Coq Require Import List ZArith Bool String Permutation.
 From Qryn Require Import model.GoQuote model.LabelJson model.Fingerprint model.Labels
   model.SeriesIndex model.Dates model.CacheKey
-  proofs.FingerprintProofs proofs.LabelsProofs proofs.SeriesIndexProofs proofs.DatesProofs proofs.CacheKeyProofs.
+  proofs.FingerprintProofs proofs.LabelsProofs proofs.JsonQuoteProofs proofs.SeriesIndexProofs proofs.DatesProofs proofs.CacheKeyProofs.
 Import ListNotations.
 Open Scope Z_scope.
 
@@ -45,37 +45,51 @@ Theorem pair_hash_separates_name_and_value : forall ch64 h128 (n1 v1 n2 v2 : str
 Proof. exact lhash_separates. Qed.
 Print Assumptions pair_hash_separates_name_and_value.
 
-(* (a4) The stored label document is JSON that decodes to exactly the label list: FALSE of the
-   code as it is (strconv.Quote is not a JSON quoter) ... *)
-Theorem label_document_roundtrip_refuted :
-  exists isprint ls, json_decode (encode_labels isprint ls) <> Some ls.
-Proof.
-  exists (isprint_tbl []), [("a"%string, String (chr 1) EmptyString)].
-  rewrite (label_document_roundtrip_fails _ (or_introl eq_refl)). discriminate.
-Qed.
-Print Assumptions label_document_roundtrip_refuted.
+(* (a4) The stored label document is valid JSON that decodes to exactly the label set: for EVERY label list
+   a client can send (any bytes in names and values, any length), through sanitizeLabels, for every IsPrint
+   oracle. json_decode is the strict RFC 8259 reader of model/LabelJson.v. Holds of the code after the fix
+   recorded in findings.d/C04.txt (encodeLabels quotes with jsonQuote; sanitizeLabels makes values valid UTF-8
+   after the cut at byte 100). *)
+Theorem label_document_roundtrip : forall isprint raw,
+  json_decode (encode_labels isprint (sanitize raw)) = Some (sanitize raw).
+Proof. exact label_document_roundtrip_all. Qed.
+Print Assumptions label_document_roundtrip.
 
-(* ... and true on exactly the class of label sets whose names and values consist of printable ASCII
-   (quotes and backslashes included), \b \f \n \r \t, well-formed UTF-8 runes that IsPrint accepts
-   (copied raw) and well-formed non-printable runes below U+10000 (rendered \uXXXX, which is JSON),
-   for every IsPrint oracle. *)
-Theorem label_document_roundtrip_partial : forall isprint ls,
-  labels_json_ok isprint ls = true -> json_decode (encode_labels isprint ls) = Some ls.
-Proof. exact label_document_roundtrip_ok. Qed.
-Print Assumptions label_document_roundtrip_partial.
+(* The protocols that do not sanitize (Datadog, Elasticsearch, OTLP logs hand their label lists to onEntries
+   as they are): the document is JSON for ANY label list; it decodes to the list with every ill-formed byte read
+   as U+FFFD, hence to exactly the list when names and values are valid UTF-8. *)
+Theorem label_document_is_json : forall isprint ls,
+  json_decode (encode_labels isprint ls) = Some (map fix_label ls).
+Proof. exact label_document_decodes. Qed.
+Print Assumptions label_document_is_json.
 
-(* The class is exact: outside it (any other control byte, 0x7f, ill-formed UTF-8 - also produced by
-   the cut at byte 100 -, a non-printable rune from U+10000) the stored document is not JSON at all. *)
-Theorem label_document_roundtrip_exact : forall isprint ls,
-  json_decode (encode_labels isprint ls) = Some ls <-> labels_json_ok isprint ls = true.
+Theorem label_document_roundtrip_valid_utf8 : forall isprint ls,
+  forallb label_valid ls = true -> json_decode (encode_labels isprint ls) = Some ls.
+Proof. exact label_document_roundtrip_valid. Qed.
+Print Assumptions label_document_roundtrip_valid_utf8.
+
+(* The repair changes no stored text that was readable: wherever strconv.Quote wrote JSON for the label list
+   (the exact class below) the new quoter writes the same bytes. *)
+Theorem label_document_text_unchanged : forall isprint ls,
+  labels_json_ok isprint ls = true -> encode_labels isprint ls = encode_labels_quote isprint ls.
+Proof. exact encode_labels_compat. Qed.
+Print Assumptions label_document_text_unchanged.
+
+(* What was wrong: strconv.Quote is not a JSON quoter (encode_labels_quote = the code before the fix) ... *)
+Theorem label_document_roundtrip_refuted_before_fix :
+  exists isprint ls, json_decode (encode_labels_quote isprint ls) <> Some ls.
+Proof. exact quote_document_refuted. Qed.
+Print Assumptions label_document_roundtrip_refuted_before_fix.
+
+(* ... its document was JSON for the label list on exactly this class: printable ASCII (quotes and backslashes
+   included), \b \f \n \r \t, well-formed UTF-8 runes that IsPrint accepts (copied raw) and well-formed
+   non-printable runes below U+10000 (rendered \uXXXX); outside it (any other control byte, 0x7f, ill-formed
+   UTF-8 - also produced by the cut at byte 100 -, a non-printable rune from U+10000) not JSON at all.
+   Rows written before the fix are readable exactly when their label set is in this class. *)
+Theorem label_document_before_fix_exact : forall isprint ls,
+  json_decode (encode_labels_quote isprint ls) = Some ls <-> labels_json_ok isprint ls = true.
 Proof. exact label_document_roundtrip_iff. Qed.
-Print Assumptions label_document_roundtrip_exact.
-
-(* the oracle-free special case: bytes that are printable ASCII or one of \b \f \n \r \t *)
-Theorem label_document_roundtrip_partial_ascii : forall isprint ls,
-  labels_safe ls = true -> json_decode (encode_labels isprint ls) = Some ls.
-Proof. exact label_document_roundtrip_safe. Qed.
-Print Assumptions label_document_roundtrip_partial_ascii.
+Print Assumptions label_document_before_fix_exact.
 
 (* (b) Every acknowledged sample has a successfully inserted series row of its own day AND sample type
    (the read side selects series rows with type IN (t, 0)), in EVERY history: any streams and mixtures of
